@@ -150,6 +150,47 @@ Proof.
   repeat split; try lia. rewrite app_nil_r. unfold busy. cbn [Nat.add]. clear. induction n; cbn; auto.
 Qed.
 
+(* p executions that panic, in whichever workers, leave the pool as it was: n can still run in parallel *)
+Lemma drun_app : forall c a b s, drun c s (a ++ b) = match drun c s a with Some s' => drun c s' b | None => None end.
+Proof. intros c a. induction a as [|l a IH]; intros b s; cbn [app drun]; [reflexivity|]. destruct (dstep c s l); [apply IH|reflexivity]. Qed.
+Lemma nth_repeat_idle : forall n i, (i < n)%nat -> nth i (repeat WIdle n) WDead = WIdle.
+Proof. induction n as [|n IH]; intros [|i] H; cbn; try lia; [reflexivity|]. apply IH. lia. Qed.
+Lemma upd_back_idle : forall n i, upd i WIdle (upd i WBusy (repeat WIdle n)) = repeat WIdle n.
+Proof. induction n as [|n IH]; intros [|i]; cbn; try reflexivity. f_equal. apply IH. Qed.
+
+Lemma panic_round_idle : forall c i, pick_mode exec_modes c = Some DSendDispatch -> (i < pool_size c)%nat ->
+  drun c (dinit c) (panic_round i) = Some (dinit c).
+Proof.
+  intros c i Hm Hi. unfold panic_round, dinit. cbn [drun].
+  unfold dstep at 1. cbn [d_crashed d_lpc d_due d_workers d_spawned d_running d_inflight d_wg Nat.add].
+  unfold dstep at 1. cbn [d_crashed d_lpc d_due d_workers d_spawned d_running d_inflight d_wg].
+  unfold dstep at 1. cbn [d_crashed d_lpc]. rewrite Hm. cbn [d_due d_workers d_spawned d_running d_inflight d_wg].
+  unfold dstep at 1. cbn [d_crashed d_lpc d_workers]. rewrite (nth_repeat_idle _ _ Hi), worker_ok.
+  cbn [d_due d_spawned d_running d_inflight d_wg].
+  unfold dstep at 1. cbn [d_crashed d_workers]. rewrite nth_upd_same by (rewrite repeat_length; exact Hi).
+  rewrite survives_all. cbn [d_lpc d_due d_workers d_spawned d_running d_inflight d_wg Nat.pred].
+  rewrite upd_back_idle. reflexivity.
+Qed.
+
+Lemma n_parallel_after_panics : forall n ws, (0 < n)%nat -> Forall (fun i => (i < n)%nat) ws ->
+  let c := mkd false (Z.of_nat n) in
+  exists s, drun c (dinit c) (panic_rounds ws ++ fill_pool n) = Some s /\ d_inflight s = n /\ d_due s = O /\
+            busy (d_workers s) = n /\ d_lpc s = LIdle /\ d_crashed s = false.
+Proof.
+  intros n ws Hn Hws c. assert (Hm : pick_mode exec_modes c = Some DSendDispatch).
+  { rewrite dmode_spec. cbn [d_blocking d_limit c]. assert (0 <? Z.of_nat n = true) as -> by (apply Z.ltb_lt; lia). reflexivity. }
+  assert (Hp : pool_size c = n).
+  { rewrite pool_size_spec. cbn [d_blocking d_limit c]. assert (0 <? Z.of_nat n = true) as -> by (apply Z.ltb_lt; lia). apply Nat2Z.id. }
+  assert (G : drun c (dinit c) (panic_rounds ws) = Some (dinit c)).
+  { induction Hws as [|i t Hi Ht IH]; [reflexivity|]. cbn [panic_rounds]. rewrite drun_app, panic_round_idle; [exact IH|exact Hm|rewrite Hp; exact Hi]. }
+  rewrite drun_app, G.
+  unfold fill_pool, dinit. rewrite Hp. cbn [drun]. unfold dstep at 1. cbn [d_crashed d_lpc d_due d_workers d_spawned d_running d_inflight d_wg].
+  replace (0 + n)%nat with (n + 0)%nat by lia.
+  change (repeat WIdle n) with (repeat WBusy 0 ++ repeat WIdle n).
+  rewrite (fill_from_run c Hm n O O O O (S n) O). eexists. split; [reflexivity|]. cbn [d_inflight d_due d_workers d_lpc d_crashed].
+  repeat split; try lia. rewrite app_nil_r. unfold busy. cbn [Nat.add]. clear. induction n; cbn; auto.
+Qed.
+
 (* unbounded mode *)
 Definition unbounded (c : dcfg) : Prop := d_blocking c = false /\ (0 <? d_limit c) = false.
 
